@@ -92,6 +92,7 @@ pub fn oracle(name: &str, rng: &mut Rng, n: usize, tier: &str) -> OracleReport {
     let mut rep = OracleReport::default();
     let mut seen = std::collections::HashSet::new();
     for i in 0..n {
+        #[allow(unused_mut)]
         let (mut prog, env) = if name == "gc" && i % 2 == 0 { garbage_program(rng) } else { random_program(rng, 30, name != "runtime") };
         if rng.chance(1, 6) {
             prog = progs::mutate(rng, &prog);
@@ -194,15 +195,42 @@ pub fn oracle(name: &str, rng: &mut Rng, n: usize, tier: &str) -> OracleReport {
                 if rng.chance(1, 4) {
                     r = 0x2 | 0x4 | 0x200 | 0x1 | 0x10;
                 }
-                let with = run_full("chia", flags | r, 0, &prog, &env, "");
-                let without = run_full("chia", flags & !r, 0, &prog, &env, "");
-                if let Ok(x) = &with.res {
-                    if without.res.as_ref().ok() != Some(x) {
-                        rep.fail("restrict", format!("{} R={:x}: with R ok {:?} but without R {:?}", d(), r, x, without.res));
+                // directed: softfork guards whose cost / extension arguments are non-canonical integers
+                let mut prog2 = prog.clone();
+                if i % 7 == 3 {
+                    let ext = rng.pick(&[vec![0u8, 0], vec![0, 1], vec![0, 0, 0], vec![0]]).clone();
+                    let body = if rng.chance(1, 2) { call(8, vec![]) } else { quote(int(1)) };
+                    prog2 = call(36, vec![quote(int(10000 + rng.below(50) as i128)), quote(T::Atom(ext)), quote(body), quote(atom(&[]))]);
+                    if rng.chance(1, 2) {
+                        r |= CANONICAL_INTS;
                     }
                 }
-                let relaxed = run_full("chia", flags | RELAXED_BLS, 0, &prog, &env, "");
-                let strict = run_full("chia", flags & !RELAXED_BLS, 0, &prog, &env, "");
+                let prog = &prog2;
+                let with = run_full("chia", flags | r, 0, prog, &env, "");
+                let without = run_full("chia", flags & !r, 0, prog, &env, "");
+                if let Ok(x) = &with.res {
+                    if without.res.as_ref().ok() != Some(x) {
+                        // known finding K: in lenient mode CANONICAL_INTS makes a softfork guard with a
+                        // non-canonical cost/extension argument an *unknown* guard (nil, declared cost)
+                        // instead of entering it; recognised by: the disagreement disappears when
+                        // CANONICAL_INTS alone is taken out of R, and unknown operators are allowed
+                        let r2 = r & !CANONICAL_INTS;
+                        let with2 = run_full("chia", (flags & !r) | r2, 0, prog, &env, "");
+                        let known = r & CANONICAL_INTS != 0
+                            && (flags | r) & NO_UNKNOWN_OPS == 0
+                            && uses_softfork(prog)
+                            && match &with2.res {
+                                Ok(y) => without.res.as_ref().ok() == Some(y),
+                                Err(_) => true,
+                            };
+                        rep.fail(
+                            "restrict",
+                            format!("{}{} R={:x}: with R ok {:?} but without R {:?}", if known { "KNOWN-K-canonical-ints-lenient-softfork " } else { "" }, desc(prog, &env, flags), r, x, without.res),
+                        );
+                    }
+                }
+                let relaxed = run_full("chia", flags | RELAXED_BLS, 0, prog, &env, "");
+                let strict = run_full("chia", flags & !RELAXED_BLS, 0, prog, &env, "");
                 if let Ok(x) = &strict.res {
                     if relaxed.res.as_ref().ok() != Some(x) {
                         rep.fail("relaxed_bls", format!("{}: strict ok {:?} relaxed {:?}", d(), x, relaxed.res));
